@@ -15,6 +15,9 @@
 //            live element objects and the outstanding blocks unchanged; a constructor that threw left nothing
 //       C10: Insert*/Remove* that threw left count <= capacity, every slot below count a live or moved-from object
 //            (canary), live objects == sum of counts, outstanding blocks == blocks owned by the containers
+//   * also created by CreateCap / CreateCrt (model ops newcap / crt: the k-th fallible step = the allocation or the k-th creator
+//     call fails), and now and then a capacity whose byte size overflows size_t is requested (Reserve, SetCount, constructor,
+//     CreateCap): std::bad_array_new_length before any fallible step, everything as before (model: `get`)
 #include "c04_arrfault.h"
 
 #ifndef AF_PART
@@ -66,6 +69,13 @@ public:
 			s.comment(fmt("%s round %u", cfgName.c_str(), r));
 			history.clear();
 			plain("new 0", [&] { obj[0].reset(new C()); }, 0);
+			// CreateCrt with every fault position: the allocation, each creator call, none (slot 2 is free at the start of a round)
+			if (canAssign) for (long k = 0; k <= 9 && !broken; ++k) {
+				createCrt(2, std::integral_constant<bool, canAssign>(), k);
+				if (!obj[2]) continue;
+				destroy(2);
+				break;
+			}
 			unsigned lim = (r % 3 == 2) ? b.maxSize : std::min<unsigned>(b.maxSize, 12);
 			for (unsigned k = 0; k < b.opsPerRound && !broken; ++k) oneOp(lim);
 			for (int o = 0; o < slotCount; ++o) if (obj[o]) destroy(o);
@@ -150,9 +160,10 @@ private:
 
 	// run `f` on slot o with the k-th fallible step failing; `strong` = documented as strongly exception-safe;
 	// `ctor` = f constructs obj[o] (on an exception the object does not exist)
-	template<typename F> void faulty(const std::string& name, const std::string& lineNoK, int o, bool strong, bool ctor, F f) {
+	template<typename F> void faulty(const std::string& name, const std::string& lineNoK, int o, bool strong, bool ctor, F f, const std::string& tail = "", long forceK = -2) {
 		long k; std::string ks = pickK(name, k);
-		std::string line = lineNoK + " " + ks;
+		if (forceK >= -1) { k = forceK; ks = k < 0 ? std::string("-") : std::to_string(k); }
+		std::string line = lineNoK + " " + ks + tail;
 		std::string before = ctor ? std::string() : state(o);
 		std::string blocksBefore = blocks(); long liveBefore = liveObjs();
 		mw().ev.clear();
@@ -226,6 +237,7 @@ private:
 		C& a = *obj[o];
 		size_t n = a.GetCount();
 		bool mayGrow = n < lim;
+		if (rng.chance(1, 30)) { overflow(o); return; }
 		setOracle(o);
 		unsigned kind = (unsigned)rng.below(mayGrow ? 30 : 40);
 		if (!mayGrow && kind < 20) kind = 20 + kind % 8;
@@ -359,8 +371,74 @@ private:
 			size_t n = (size_t)rng.below(8); uint32_t id = fresh(); T v = K::make(id); ExtGuard eg(ext);
 			faulty("fill", fmt("fill %d %zu v%u", o, n, id), o, true, true, [&] { obj[o].reset(new C(n, v)); });
 		}
+		else if (canAssign && rng.chance(1, 2)) createCrt(o, std::integral_constant<bool, canAssign>());
 		else plain(fmt("new %d", o), [&] { obj[o].reset(new C()); }, o);
 	}
+	// CreateCrt(count, itemMultiCreator) with the k-th fallible step (the allocation, then one copy construction per creator call)
+	// failing; CreateCap(capacity).  They return by value through Array(Data&&): with an internal buffer only for nothrow-relocatable
+	// items (= canAssign).  Property level: a call that threw left no element object and no block (faulty, `ctor`); a call that
+	// returned made exactly `count` creator calls, the i-th one for element i, and the elements are what the calls made
+	void createCrt(int, std::false_type, long = -2) {}
+	void createCrt(int o, std::true_type, long forceK = -2) {
+		if (forceK == -2 && rng.chance(1, 3)) {
+			size_t n = (size_t)rng.below(12);
+			faulty("newcap", fmt("newcap %d %zu", o, n), o, true, true, [&] { obj[o].reset(new C(C::CreateCap(n))); });
+			if (obj[o] && (obj[o]->GetCount() != 0 || obj[o]->GetCapacity() < n)) fail("C05 CreateCap", fmt("count %zu capacity %zu for CreateCap(%zu)", obj[o]->GetCount(), obj[o]->GetCapacity(), n));
+			return;
+		}
+		size_t n = (size_t)rng.below(8);
+		std::vector<T> vals; std::string ids;
+		vals.reserve(n);
+		for (size_t i = 0; i < n; ++i) { uint32_t id = fresh(); vals.push_back(K::make(id)); ids += fmt(" %u", id); }
+		std::vector<T*> ptrs; size_t calls = 0;
+		auto creator = [&vals, &ptrs, &calls](T* p) { ptrs.push_back(p); size_t i = calls++; ::new(static_cast<void*>(p)) T(static_cast<const T&>(vals.at(i))); };
+		ext += (long)n;
+		faulty("crt", fmt("crt %d", o), o, true, true, [&] { obj[o].reset(new C(C::CreateCrt(n, creator))); }, ids, forceK);
+		ext -= (long)n;
+		if (obj[o]) {
+			const C& a = *obj[o];
+			bool ok = calls == n && a.GetCount() == n;
+			for (size_t i = 0; ok && i < n; ++i) ok = a.GetItems()[i].id == vals[i].id && (intCap > 0 || ptrs[i] == a.GetItems() + i);
+			if (!ok) fail("C05 CreateCrt", fmt("%zu creator calls for count %zu, contents {%s}, values [%s]", calls, n, state(o).c_str(), ids.c_str()));
+		}
+		else if (calls > n) fail("C05 CreateCrt", fmt("%zu creator calls for count %zu", calls, n));
+		c.stats.count(obj[o] ? "crt.completed" : (calls > 0 ? "crt.creator_threw" : "crt.allocation_failed"));
+	}
+
+	// Array::Data::pvCheckCapacity: a capacity whose byte size does not fit size_t is refused with std::bad_array_new_length
+	// before any fallible step (no memory-manager call, no element operation); C04: contents, count and capacity as before.
+	// The model answers `get`: the unchanged state, no call, the ledger as it was
+	void overflow(int o) {
+		C& a = *obj[o];
+		const size_t big = SIZE_MAX / sizeof(T) + 1;
+		size_t arg = rng.chance(1, 2) ? big : rng.chance(1, 2) ? SIZE_MAX : big + (size_t)rng.below(SIZE_MAX - big);
+		unsigned v = (unsigned)rng.below(canAssign ? 4 : 3);
+		const char* what = v == 0 ? "Reserve" : v == 1 ? "SetCount(count, item)" : v == 2 ? "Array(count, item)" : "CreateCap";
+		T x = K::make(fresh()); ExtGuard eg(ext);
+		std::string before = state(o), blocksBefore = blocks(); long liveBefore = liveObjs();
+		int outcome = 0;
+		FP& p = fp(); p.points = 0; p.fired = false;
+		plain(fmt("get %d", o), [&] {
+			try {
+				if (v == 0) a.Reserve(arg);
+				else if (v == 1) { if (a.GetCount() > 0 && rng.chance(1, 2)) a.SetCount(arg, static_cast<const C&>(a)[0]); else a.SetCount(arg, x); }
+				else if (v == 2) { std::unique_ptr<C> t(new C(arg, x)); }
+				else overflowCap(arg, std::integral_constant<bool, canAssign>());
+			}
+			catch (const std::bad_array_new_length&) { outcome = 1; }
+			catch (const std::bad_alloc&) { outcome = 2; }
+			catch (...) { outcome = 3; }
+		}, o);
+		c.stats.count(std::string("overflow.") + what + (a.GetCount() ? ".nonempty" : ".empty"));
+		std::string tag = fmt("slot %d: %s(%zu) with sizeof(Item) = %zu", o, what, arg, sizeof(T));
+		if (outcome != 1) fail("C04 capacity overflow: no std::bad_array_new_length", tag + (outcome == 0 ? " returned" : outcome == 2 ? " threw another std::bad_alloc" : " threw something else"));
+		else if (state(o) != before) fail("C04 strong guarantee", tag + fmt(" threw and changed the container: before {%s} after {%s}", before.c_str(), state(o).c_str()));
+		else if (!mw().ev.empty() || p.points != 0) fail("C04 capacity overflow", tag + fmt(": %ld fallible steps, memory-manager calls [%s] before the exception", p.points, events().c_str()));
+		else if (blocks() != blocksBefore || liveObjs() != liveBefore) fail("C04 strong guarantee / leak", tag + fmt(": blocks [%s] before [%s], %ld element objects, %ld before", blocks().c_str(), blocksBefore.c_str(), liveObjs(), liveBefore));
+		checkValid(tag, true);
+	}
+	void overflowCap(size_t, std::false_type) {}
+	void overflowCap(size_t n, std::true_type) { std::unique_ptr<C> t(new C(C::CreateCap(n))); }
 
 	void twoObjects(int o) {
 		int q = (o + 1 + (int)rng.below(slotCount - 1)) % slotCount;
@@ -402,6 +480,11 @@ static_assert(momo::ArrayItemTraits<ElM<false>, MM00>::isNothrowMoveConstructibl
 static_assert(momo::ArrayItemTraits<ElM<true>, MM00>::isNothrowMoveConstructible && momo::ArrayItemTraits<ElM<true>, MM00>::isNothrowRelocatable, "ElM throwing assignment");
 static_assert(!momo::ArrayItemTraits<ElC<false>, MM00>::isNothrowRelocatable && !momo::ArrayItemTraits<ElC<false>, MM00>::isNothrowMoveConstructible, "ElC");
 static_assert(!momo::ArrayItemTraits<ElC<true>, MM00>::isNothrowRelocatable, "ElC throwing assignment");
+// ElS: for Array the category of ElC<true>; for ObjectManager a swappable one (pvShiftNothrow / pvAssignAnyway swap variants)
+static_assert(!momo::ArrayItemTraits<ElS, MM00>::isNothrowRelocatable && !momo::ArrayItemTraits<ElS, MM00>::isNothrowMoveConstructible
+	&& !momo::ArrayItemTraits<ElS, MM00>::isTriviallyRelocatable, "ElS");
+static_assert(momo::internal::ObjectManager<ElS, MM00>::isNothrowSwappable && momo::internal::ObjectManager<ElS, MM00>::isNothrowShiftable
+	&& momo::internal::ObjectManager<ElS, MM00>::isNothrowAnywayAssignable && !std::is_nothrow_move_assignable<ElS>::value, "ElS");
 
 int main(int argc, char** argv)
 {
@@ -427,6 +510,10 @@ int main(int argc, char** argv)
 #if AF_PART == 0 || AF_PART == 5
 	runConfig<Arr<0, Tr, MM10>>(c, rng, "a0_triv_realloc", b);
 	runConfig<Arr<3, Tr, MM11>>(c, rng, "a3_triv_both", b);
+#endif
+#if AF_PART == 0 || AF_PART == 6
+	runConfig<Arr<0, ElS, MM00>>(c, rng, "a0_sw", b);
+	runConfig<Arr<2, ElS, MM01>>(c, rng, "a2_sw_inplace", b);
 #endif
 	return c.finish();
 }
